@@ -14,6 +14,10 @@ P = {
  'C19': ('testCondition of all six condition classes x both inequalities executed on a PrecipitateBase object with a symbolic history: reads the monitored value at pData.n of the model it is '
          'given, latch, interpolated crossing time within [t(n-1), t(n)] (NRA), reset; stop decision of PrecipitateBase.postProcess for every or/and mix of <= 3 conditions; solver-loop stop clause (C05); TTP calculator wiring.',
          'P, E <= 2; model sub-steps of postProcess are arbitrary callables'),
+ 'C20': ('m2.fromDict(m1.toDict()) and m2.load(m1.save()) executed on the real code over a virtual .npz file: each of the 16 named histories, the step counter and per phase PSD, bounds, centres, '
+         'min, max, bins, aspect-ratio table are equal for symbolic history length and grids; diffusion state with recording on and off; untrained pass-through of all seven surrogate getters to the SAME backend method with the same arguments; '
+         'every _fit* refits from the current data; _processSurrogateData(_collectSurrogateData()) restores every data dictionary and refits once per phase.',
+         'np.savez/np.load/json round trip and RBF interpolation property assumed; P,E <= 2; trained-surrogate reproduction at training points undecided'),
  'C04': ('Obligations from the real source of the boundary-condition routine, DiffusionModel.getdXdt/postProcess/setup/flatten/unflatten, both _getFluxes and the '
          'real iterators + DESolver._updateX: boundary-face contract for every flux/composition mix, telescoping flux divergence (linear-sum lemma), '
          'per-step mesh-sum balance for Euler and RK4, fixed nodes, clip bounds, setup idempotence and configuration-op frames, for symbolic mesh size.', 'E <= 2 independent components'),
